@@ -18,5 +18,5 @@ rc=$?
 viol=$(echo "$out" | grep -c '^VIOLATION')
 echo "$prop $(basename $(dirname $d))/$(basename $d): demo clean=$clean mutated=$mut | tests: $tests | check rc=$rc violation_lines=$viol"
 echo "$out" | grep -E "failing input|no longer checks|^VIOLATION" | head -4 | cut -c1-300
-cd /; git -C /repo worktree remove --force $wt
+cd /; git -C /repo worktree remove --force $wt; git -C "$here" checkout -- evidence 2>/dev/null
 URAL_REPO=/repo /venv/bin/python "$here/harness/translate.py" >/dev/null 2>&1
